@@ -322,6 +322,14 @@ func (w *world) doJoin(i, j, size int) {
 		}
 	}
 	w.shape += fmt.Sprintf("J%d.%d.%d;", i, j, size)
+	// observed on the source before the call: which of its entry OBJECTS carry no identity (an object is what a
+	// merge hands over; the same hash can be an intact object in another replica)
+	var noIdent []string
+	for _, e := range w.reps[j].log.GetEntries().Slice() {
+		if e.GetIdentity() == nil {
+			noIdent = append(noIdent, w.al(e))
+		}
+	}
 	done := make(chan string, 1)
 	go func() {
 		r := "ok"
@@ -342,7 +350,7 @@ func (w *world) doJoin(i, j, size int) {
 		res = "hang"
 		w.hung = true
 	}
-	fmt.Fprintf(w.out, "J %d %d %d %s\n", i, j, size, res)
+	fmt.Fprintf(w.out, "J %d %d %d %s %s\n", i, j, size, res, lst(noIdent))
 	if res == "err" {
 		w.stats.RejectedJoins++
 	}
